@@ -1,17 +1,235 @@
-import SSV.Model.Router
+import SSV.Proofs.RouterTop
 /-
-C09 — property theorems (first pass: ties to the regenerated facts; the full-strength theorems follow).
+C09 — Routing picks the first route whose documented conditions all hold.
+
+Model: SSV/Model/Router.lean (router/route.go + router/router.go, with proposed_fixes/F3.diff applied).
+Specification: SSV/Model/RouterSpec.lean (`specRoute`, `specMatch`, written from the RouteConfig field comments;
+the readings adopted where the comments are silent are listed there as R1–R8).
+Only the property theorems live here; lemmas are in SSV/Proofs/Router*.lean.
+
+Hypotheses that exclude inputs (all decidable, all guaranteed by the callers in service/):
+  * `env.servers.Nodup`   — service.Config rejects duplicate server names;
+  * `q.WF env`            — the receiving server exists (ServerIndex < number of servers: the guard of
+                            bitset.IsSet) and ports are uint16.
+The request target is a valid conn.Addr (IP or domain) by the type `Target`.
 -/
 namespace SSV.C09
-open SSV.Router SSV.Gen
+open SSV.Router SSV.Router.Spec SSV.Gen
 
-/-- The order in which `RouteConfig.Route` appends criteria (and pairs them with invert flags) is the order
-the model `build` was written from. -/
+/-! ### ties to the regenerated facts -/
+
+/-- The order in which `RouteConfig.Route` runs its pre-checks and appends its criteria is the order `build` uses
+(it decides which error surfaces first), and every criterion type is paired with the invert flag `build` pairs it with. -/
 theorem criteria_order_tie :
+    C09.precheckOrder = ["name", "geoip", "resolvers", "domainCriteria", "resolver"] ∧
     C09.criteriaOrder = ["network", "fromServers", "fromUsers", "fromPorts", "fromAddr", "toPorts", "toAddr"] ∧
-    C09.precheckOrder = ["name", "geoip", "resolvers", "domainCriteria", "resolver"] := by
-  decide
+    C09.addCriterionCalls = [
+      ("route", "NetworkTCPCriterion", "false"),
+      ("route", "NetworkUDPCriterion", "false"),
+      ("route", "SourceServerCriterion", "rc.InvertFromServers"),
+      ("route", "SourceUserCriterion", "rc.InvertFromUsers"),
+      ("route", "SourcePortCriterion", "rc.InvertFromPorts"),
+      ("route", "SourcePortRangeSetCriterion", "rc.InvertFromPorts"),
+      ("route", "SourcePortSetCriterion", "rc.InvertFromPorts"),
+      ("group", "SourceIPCriterion", "rc.InvertFromPrefixes"),
+      ("group", "SourceGeoIPCountryCriterion", "rc.InvertFromGeoIPCountries"),
+      ("route", "DestPortCriterion", "rc.InvertToPorts"),
+      ("route", "DestPortRangeSetCriterion", "rc.InvertToPorts"),
+      ("route", "DestPortSetCriterion", "rc.InvertToPorts"),
+      ("expectedIPCriterionGroup", "DestResolvedIPCriterion", "rc.InvertToMatchedDomainExpectedPrefixes"),
+      ("expectedIPCriterionGroup", "DestResolvedGeoIPCountryCriterion", "rc.InvertToMatchedDomainExpectedGeoIPCountries"),
+      ("group", "DestDomainExpectedIPCriterion", "rc.InvertToDomains"),
+      ("group", "DestDomainCriterion", "rc.InvertToDomains"),
+      ("group", "DestIPCriterion", "rc.InvertToPrefixes"),
+      ("group", "DestResolvedIPCriterion", "rc.InvertToPrefixes"),
+      ("group", "DestGeoIPCountryCriterion", "rc.InvertToGeoIPCountries"),
+      ("group", "DestResolvedGeoIPCountryCriterion", "rc.InvertToGeoIPCountries")] :=
+  ⟨rfl, rfl, rfl⟩
+
+/-- The control-flow functions that `meetAll`, `R.invert`, `meetOr`, `groupCriterion`, `groupAppend`, the
+`dstDomainExpected` case of `meet`, `lookup`, `matchRoutes` and `Route.clientFor` mirror statement by statement
+still have the source text the model was written from. -/
+theorem control_flow_tie :
+    C09.srcRouteMatch = "{ for _, criterion := range r.criteria { met, err := criterion.Meet(ctx, network, requestInfo) if !met { return false, err } } return true, nil }" ∧
+    C09.srcInvertedMeet = "{ met, err := c.Inner.Meet(ctx, network, requestInfo) if err != nil { return false, err } return !met, nil }" ∧
+    C09.srcGroupMeet = "{ for _, criterion := range g.Criteria { met, err := criterion.Meet(ctx, network, requestInfo) if err != nil { return false, err } if met { return true, nil } } return false, nil }" ∧
+    C09.srcGroupCriterion = "{ switch len(g.Criteria) { case 0: return nil case 1: return g.Criteria[0] default: return g } }" ∧
+    C09.srcGroupAppendTo = "{ switch len(g.Criteria) { case 0: return criteria case 1: return append(criteria, g.Criteria[0]) default: return append(criteria, g) } }" ∧
+    C09.srcDomainExpectedMeet = "{ met, err := c.destDomainCriterion.Meet(ctx, network, requestInfo) if !met { return false, err } return c.expectedIPCriterion.Meet(ctx, network, requestInfo) }" ∧
+    C09.srcLookup = "{ for _, resolver := range resolvers { ip, err = resolver.LookupIP(ctx, domain) if err == dns.ErrLookup { continue } return } return ip, errNoAvailableResolvers }" ∧
+    C09.srcRouterMatch = "{ for i := range r.routes { matched, err := r.routes[i].Match(ctx, network, requestInfo) if err != nil { return nil, err } if matched { return &r.routes[i], nil } } panic(\"did not match default route\") }" ∧
+    C09.srcRouteTCPClient = "{ if r.tcpClient == nil { return nil, ErrRejected } return r.tcpClient, nil }" ∧
+    C09.srcRouteUDPClient = "{ if r.udpClient == nil { return nil, ErrRejected } return r.udpClient, nil }" :=
+  ⟨rfl, rfl, rfl, rfl, rfl, rfl, rfl, rfl, rfl, rfl⟩
+
+/-- The literals of `RouteConfig.Route` are the documented ones: a single port is stored as a port, up to 16
+ranges as a range set, more as a bit set; all 65535 ports is refused; "reject", "tcp", "udp". -/
+theorem literals_tie :
+    C09.srcPortSingleCount = 1 ∧ C09.srcPortAllCount = 65535 ∧ C09.srcPortMaxRanges = 16 ∧
+    C09.dstPortSingleCount = 1 ∧ C09.dstPortAllCount = 65535 ∧ C09.dstPortMaxRanges = 16 ∧
+    C09.rejectName = "reject" ∧ C09.networkNames = ["", "tcp", "udp"] ∧ C09.badRouteNames = ["", "default"] :=
+  ⟨rfl, rfl, rfl, rfl, rfl, rfl, rfl, rfl, rfl⟩
+
+/-- Finding F3 (repaired by proposed_fixes/F3.diff): both `*PortSetCriterion.Meet` methods return (false, nil) for
+port 0 before they call `PortSet.Contains`, which panics on 0 by contract. -/
+theorem port_zero_guard_tie : C09.srcPortSetGuardsZero = true ∧ C09.dstPortSetGuardsZero = true := ⟨rfl, rfl⟩
+
+/-- Without the guard the bit-set criterion panics on port 0 (what the pinned tree did: finding F3). -/
+theorem unguarded_port_zero_panics (s : PortSet) : portSetMeet false s 0 = .panic := rfl
+
+/-! ### the property -/
+
+/-- **route_build_sound.** For every route configuration that loads, every request and every behaviour of the
+resolvers, domain sets, prefix sets and GeoIP, `Route.Match` on the built criteria decides exactly the documented
+condition — same verdict, same error, never a panic. -/
+theorem route_build_sound (p : Params) (env : Env) (rc : RouteConfig) (route : Route) (q : Req)
+    (hnd : env.servers.Nodup) (hq : q.WF env) (hb : build env rc = .ok route) :
+    meetAll p q route.criteria = R.ofV (specRoute p env rc q) :=
+  route_sound p env rc route q hnd hq hb
+
+/-- **first_match.** For every router configuration that loads, `GetTCPClient` / `GetUDPClient` return what the
+specification says: the client of the first route, in configuration order, whose conditions all hold; an error if
+a condition of an earlier-or-equal route cannot be decided; otherwise the default client; reject ⇒ rejected. -/
+theorem first_match (p : Params) (env : Env) (cfg : Config) (r : Router) (q : Req)
+    (hnd : env.servers.Nodup) (hq : q.WF env) (hb : buildRouter env cfg = .ok r) :
+    getClient p r q = specMatch p env cfg q :=
+  getClient_spec p env cfg r q hnd hq hb
+
+/-- `specMatch` spelled out: (1) a route whose conditions all hold, preceded only by routes that do not match, wins;
+(2) if no route matches the default client is used; (3) a route whose conditions cannot be decided, preceded only by
+routes that do not match, makes the request fail with that error. -/
+theorem first_match_spelled_out (p : Params) (env : Env) (cfg : Config) (q : Req) :
+    (∀ pre rc post, cfg.routes = pre ++ rc :: post → (∀ x ∈ pre, specRoute p env x q = .f) →
+        specRoute p env rc q = .t → specMatch p env cfg q = specClient rc.client) ∧
+    ((∀ x ∈ cfg.routes, specRoute p env x q = .f) → specMatch p env cfg q = specDefault env cfg q.net) ∧
+    (∀ pre rc post x, cfg.routes = pre ++ rc :: post → (∀ y ∈ pre, specRoute p env y q = .f) →
+        specRoute p env rc q = .e x → specMatch p env cfg q = .error x) := by
+  have skip : ∀ pre rest, (∀ x ∈ pre, specRoute p env x q = .f) →
+      specRoutes p env cfg q (pre ++ rest) = specRoutes p env cfg q rest := by
+    intro pre rest h
+    induction pre with
+    | nil => rfl
+    | cons a pre ih =>
+      simp only [List.cons_append, specRoutes, h a List.mem_cons_self]
+      exact ih (fun x hx => h x (List.mem_cons_of_mem _ hx))
+  refine ⟨?_, ?_, ?_⟩
+  · intro pre rc post e hpre ht
+    unfold specMatch
+    rw [e, skip pre _ hpre]
+    simp only [specRoutes, ht]
+  · intro h
+    unfold specMatch
+    have := skip cfg.routes [] h
+    rw [List.append_nil] at this
+    rw [this]; rfl
+  · intro pre rc post x e hpre hx
+    unfold specMatch
+    rw [e, skip pre _ hpre]
+    simp only [specRoutes, hx]
+
+/-- The order-free reading of `specRoute` (R1): a match means every documented condition holds; a non-match means
+some condition is definitely false; an error means some condition could not be decided with that very error.
+In particular a condition that cannot be decided never turns into a match. -/
+theorem conds_all_hold (p : Params) (env : Env) (rc : RouteConfig) (q : Req) :
+    (specRoute p env rc q = .t ↔ ∀ v ∈ conds p env rc q, v = .t) ∧
+    (specRoute p env rc q = .f → ∃ v ∈ conds p env rc q, v = .f) ∧
+    (∀ x, specRoute p env rc q = .e x → ∃ v ∈ conds p env rc q, v = .e x) :=
+  ⟨allV_eq_t_iff _, allV_eq_f _, fun x => allV_eq_e _ x⟩
+
+/-- **Resolver failures never become a silent match.** If the target is a domain whose resolution fails, a route
+that restricts the destination by IP prefixes only (no domain kind, no GeoIP kind, name resolution not disabled)
+does not match: the request fails with the resolver's error unless an earlier condition already excludes the route. -/
+theorem resolver_failure_never_matches (p : Params) (env : Env) (rc : RouteConfig) (q : Req) (d : String) (x : Err)
+    (hd : q.target = .domain d) (hfail : resolveSpec p env rc d = .error x)
+    (hdom : (rc.toDomains.isEmpty && rc.toDomainSets.isEmpty) = true) (hgeo : rc.toGeoIPCountries.isEmpty = true)
+    (hpfx : (rc.toPrefixes.isEmpty && rc.toPrefixSets.isEmpty) = false)
+    (hres : rc.disableNameResolutionForIPRules = false) :
+    cToAddr p env rc q = .e x ∧ specRoute p env rc q ≠ .t := by
+  have h1 : cToAddr p env rc q = .e x := by
+    simp [cToAddr, kToDomains, kToPrefixes, kToGeo, hdom, hgeo, hpfx, destIPCond, hd, hres, resolvedV, hfail,
+      orKinds, anyV, V.or, V.inv]
+  refine ⟨h1, ?_⟩
+  intro ht
+  have := ((conds_all_hold p env rc q).1.mp ht) (cToAddr p env rc q) (by simp [conds])
+  rw [h1] at this; cases this
+
+/-- **port_representations_agree.** Whatever representation `RouteConfig.Route` picks for a port condition — a
+single port (`PortSet.First` of a one-element set), a range set searched by binary search (`PortSet.RangeSet`), or
+the bit set itself — the criterion decides membership in the same set, for every port 0..65535 (port 0 is in no set). -/
+theorem port_representations_agree (p : Params) (q : Req) (s : PortSet) (hs0 : s.mem 0 = false)
+    (hsp : q.srcPort < portSpace) (hdp : q.dstPort < portSpace) :
+    (s.count = 1 → meet p q (.srcPort s.first) = R.ofBool (s.mem q.srcPort)) ∧
+    meet p q (.srcPortRanges s.rangeSet) = R.ofBool (s.mem q.srcPort) ∧
+    meet p q (.srcPortSet s) = R.ofBool (s.mem q.srcPort) ∧
+    (s.count = 1 → meet p q (.dstPort s.first) = R.ofBool (s.mem q.dstPort)) ∧
+    meet p q (.dstPortRanges s.rangeSet) = R.ofBool (s.mem q.dstPort) ∧
+    meet p q (.dstPortSet s) = R.ofBool (s.mem q.dstPort) := by
+  refine ⟨?_, ?_, ?_, ?_, ?_, ?_⟩
+  · intro h1; simp only [meet]; rw [first_of_count_one s h1 _ hsp]
+  · simp only [meet]; rw [rangeSet_contains s _ hsp]
+  · simp only [meet, srcGuard]; exact portSetMeet_guarded s hs0 _
+  · intro h1; simp only [meet]; rw [first_of_count_one s h1 _ hdp]
+  · simp only [meet]; rw [rangeSet_contains s _ hdp]
+  · simp only [meet, dstGuard]; exact portSetMeet_guarded s hs0 _
+
+/-- the table `RouteConfig.Route` builds from `ports` + `portRanges` holds exactly the denoted ports (so the
+hypothesis `s.mem 0 = false` of `port_representations_agree` holds for every table the router builds) -/
+theorem port_table_denotes (b1 b2 : BuildErr) (ports : List Nat) (items : List PortItem) (s1 s2 : PortSet)
+    (h1 : addPorts b1 .empty ports = .ok s1) (h2 : addItems b2 s1 items = .ok s2) :
+    (∀ x, s2.mem x = portsDenote ports items x) ∧ s2.mem 0 = false :=
+  portTable_spec .empty PortSet.wf_empty PortSet.mem_empty b1 b2 ports items s1 s2 h1 h2
+
+/-- **no_panic.** No request makes a loaded router panic: not the bit-set port criterion on port 0 (F3, guarded),
+not `bitset.IsSet` (server index below the capacity), not a nil criterion of an empty OR group, and the trailing
+default route always matches ("did not match default route" is unreachable). -/
+theorem no_panic (p : Params) (env : Env) (cfg : Config) (r : Router) (q : Req)
+    (hnd : env.servers.Nodup) (hq : q.WF env) (hb : buildRouter env cfg = .ok r) :
+    getClient p r q ≠ .panic := by
+  rw [first_match p env cfg r q hnd hq hb]
+  exact specRoutes_ne_panic p env cfg q cfg.routes
+
+/-! ### the hypotheses are satisfiable -/
+
+def exEnv : Env :=
+  { resolvers := ["dns"], tcpClients := ["a", "b"], udpClients := ["a", "b"], servers := ["s0", "s1"], pfxSets := ["lan"] }
+def exRoute : RouteConfig :=
+  { name := "r1", client := "b", network := "tcp", fromServers := ["s1"], toDomains := ["x.test"],
+    toMatchedDomainExpectedPrefixSets := ["lan"], toPrefixes := [⟨.v4 167772160, 8⟩], invertToPrefixes := true }
+def exCfg : Config := { defaultTCPClientName := "a", defaultUDPClientName := "reject", routes := [exRoute] }
+def exReq : Req :=
+  { net := .tcp, server := 1, user := "u", srcIP := .v6 281470698520577, srcPort := 0, target := .domain "x.test", dstPort := 65535 }
+
+example : exEnv.servers.Nodup := by decide
+example : exReq.WF exEnv := ⟨by decide, by decide, by decide⟩
+example : ∃ r, build exEnv exRoute = .ok r := ⟨_, rfl⟩
+example : ∃ r, buildRouter exEnv exCfg = .ok r := ⟨_, rfl⟩
+/-- hypotheses of `first_match_spelled_out` (1) and (3): a route list with a first element -/
+example : exCfg.routes = [] ++ exRoute :: [] := rfl
+/-- hypotheses of `resolver_failure_never_matches`: a resolver that fails, a prefix-only route, a domain target -/
+example : ∃ (p : Params) (rc : RouteConfig) (q : Req) (d : String) (x : Err),
+    q.target = .domain d ∧ resolveSpec p exEnv rc d = .error x ∧
+    (rc.toDomains.isEmpty && rc.toDomainSets.isEmpty) = true ∧ rc.toGeoIPCountries.isEmpty = true ∧
+    (rc.toPrefixes.isEmpty && rc.toPrefixSets.isEmpty) = false ∧ rc.disableNameResolutionForIPRules = false :=
+  ⟨{ resolve := fun _ _ => .fail "servfail", domSet := fun _ _ => false, pfxSet := fun _ _ => false,
+     pfx := Prefix.contains, country := fun _ => none },
+   { name := "r", client := "a", toPrefixes := [⟨.v4 0, 0⟩] }, exReq, "x.test", .resolver "servfail",
+   rfl, rfl, rfl, rfl, rfl, rfl⟩
+/-- hypotheses of `port_representations_agree` / `port_table_denotes`: the empty table has bit 0 clear -/
+example : PortSet.empty.mem 0 = false := PortSet.mem_empty 0
+example : ∃ s1 s2, addPorts .badToPorts .empty [] = .ok s1 ∧ addItems .badToPortRanges s1 [] = .ok s2 := ⟨_, _, rfl, rfl⟩
 
 end SSV.C09
 
 #print axioms SSV.C09.criteria_order_tie
+#print axioms SSV.C09.control_flow_tie
+#print axioms SSV.C09.literals_tie
+#print axioms SSV.C09.port_zero_guard_tie
+#print axioms SSV.C09.unguarded_port_zero_panics
+#print axioms SSV.C09.route_build_sound
+#print axioms SSV.C09.first_match
+#print axioms SSV.C09.first_match_spelled_out
+#print axioms SSV.C09.conds_all_hold
+#print axioms SSV.C09.resolver_failure_never_matches
+#print axioms SSV.C09.port_representations_agree
+#print axioms SSV.C09.port_table_denotes
+#print axioms SSV.C09.no_panic
